@@ -136,9 +136,20 @@ func VerifIsAffected() {
 	evs, events := verifRange(eco, k, "e")
 	verifrt.Assume(verifWellFormed(evs))
 
-	vb := verifrt.Byte("v")
-	verifrt.Assume(verifrt.And(vb >= '1', vb <= '9'))
-	v := int(vb - '0')
+	// the queried version: <d>.0(.0) with a symbolic digit, or a pre-release of zero, which sorts
+	// below every <d>.0(.0) but after the literal "0" that precedes every version
+	var vb byte
+	var v int
+	queried := ""
+	if verifrt.Choice("prerelease-of-zero", 2) == 1 {
+		queried = map[string]string{"npm": "0.0.0-alpha.1", "Maven": "0-alpha-1", "PyPI": "0a1"}[eco]
+		v = 0
+	} else {
+		vb = verifrt.Byte("v")
+		verifrt.Assume(verifrt.And(vb >= '1', vb <= '9'))
+		v = int(vb - '0')
+		queried = verifVersion(eco, vb)
+	}
 
 	rtype := []string{"ECOSYSTEM", "SEMVER", "GIT"}[verifrt.Choice("rtype", 3)]
 	nameMatch := verifrt.Choice("name", 2) == 0
@@ -159,11 +170,11 @@ func VerifIsAffected() {
 		lb := verifrt.Byte("listed")
 		verifrt.Assume(verifrt.And(lb >= '1', lb <= '9'))
 		aff.Versions = []string{"0.0.1", verifVersion(eco, lb)}
-		listedHit = lb == vb
+		listedHit = verifrt.StrEq(verifVersion(eco, lb), queried)
 	}
 	aff.Ranges = []osvschema.Range{{Type: osvschema.RangeType(rtype), Events: events}}
 	vuln := &osvschema.Vulnerability{ID: "V-1", Affected: []osvschema.Affected{aff}}
-	pkg := &extractor.Package{Name: "pkg", Version: verifVersion(eco, vb), Extractor: verifExtractor{eco}}
+	pkg := &extractor.Package{Name: "pkg", Version: queried, Extractor: verifExtractor{eco}}
 
 	got := IsAffected(vuln, pkg)
 
